@@ -206,13 +206,25 @@ class Scenario:
                 to = e[1]
                 w = "C" if to == "S" else "S"
                 payload, isbin = e[2], e[3]
+                # frame-level receive callbacks that led to this onMessage: tags (runs of "fd" collapsed), frame count, data octets
+                tags, nfb, fdsum, fbsum = [], 0, 0, 0
+                for tag, n in (e[4] if len(e) > 4 else []):
+                    if tag == "fd":
+                        fdsum += n
+                        if tags and tags[-1] == "fd":
+                            continue
+                    if tag == "fb":
+                        nfb += 1
+                        fbsum += n
+                    tags.append(tag)
+                cbk = dict(cb=tags, nfb=nfb, fdsum=fdsum)
                 cand = [m for m in self.undelivered[w] if m[2] == payload and m[1] == isbin]
                 if cand:
                     m = cand[0]
                     self.undelivered[w].remove(m)
-                    self.trace.append(dict(ev="deliver", to=to, id=m[0], bin=isbin, len=len(payload), same=True))
+                    self.trace.append(dict(ev="deliver", to=to, id=m[0], bin=isbin, len=len(payload), same=True, **cbk))
                 else:
-                    self.trace.append(dict(ev="deliver", to=to, id=0, bin=isbin, len=len(payload), same=False))
+                    self.trace.append(dict(ev="deliver", to=to, id=0, bin=isbin, len=len(payload), same=False, **cbk))
             elif e[0] == "escape":
                 self.trace.append(dict(ev="escape", at=e[1], exc=e[2]))
             elif e[0] == "onClose":
